@@ -202,6 +202,11 @@ func runC10(c *eng.Ctx) {
 	ruleReadonlyStopForwardOnly(c)
 	c.Floor(8)
 
+	// ---- R10.8 timestamp lookup shapes
+	c.Rule("R10.8", "K5")
+	ruleTimestampLookupShapes(c)
+	c.Floor(10)
+
 	// ---- shared
 	c.Rule("R01.5", "K5")
 	ruleUnitDiscipline(c)
@@ -269,7 +274,14 @@ func runC10(c *eng.Ctx) {
 			single := eng.CmpEdges(fn, eng.Len(eng.Load(segF, nil)), eng.IntConst(1), eng.LE)
 			for i, e := range ph.Edges {
 				if sl, isSl := e.(*ssa.Slice); isSl && eng.Load(segF, nil)(sl.X) && sl.High != nil && eng.Bin(token.SUB, eng.Len(eng.Load(segF, nil)), eng.IntConst(1))(sl.High) && sl.Low == nil {
-					trimmed = true
+					// the trimmed list is taken only when there is more than one segment AND the last one is empty
+					several := eng.CmpEdges(fn, eng.Len(eng.Load(segF, nil)), eng.IntConst(1), eng.GT)
+					isEmpty := eng.BoolEdges(fn, eng.Call(-1, cl+"segment.IsEmpty"), true)
+					g1, _ := eng.GuardedBy(fn, sl, several)
+					g2, _ := eng.GuardedBy(fn, sl, isEmpty)
+					if g1 && g2 && len(several) > 0 && len(isEmpty) > 0 {
+						trimmed = true
+					}
 					continue
 				}
 				if eng.Load(segF, nil)(e) {
@@ -363,6 +375,11 @@ func runC10(c *eng.Ctx) {
 	n := ruleSentinelIdentity(c, "R14.6", []string{"server.(*partition).newSubscribeLoop", cl + "(*commitLog).EarliestOffsetAfterTimestamp", cl + "(*commitLog).LatestOffsetBeforeTimestamp", cl + "(*ReverseReader).ReadMessage"},
 		"the reader takes the branch for any other error: a subscription ends with the wrong status, or a timestamp lookup fails instead of answering from the neighbouring segment")
 	c.Check(n >= 8, "reader sentinels resolved", "", "identity comparisons with end-of-log / not-found sentinels resolved to their producers", "fewer identity comparisons with reader sentinels than on the reference tree")
+	// ---- R03.10 (shared) a Read fills the buffer or fails
+	c.Rule("R03.10", "K1")
+	ruleReadFillsOrFails(c)
+	c.Floor(2)
+
 }
 
 func checkPositionTable(c *eng.Ctx, fn *ssa.Function, api *types.Package, typ string, tag eng.VM, want map[string]eng.VM) {
